@@ -107,7 +107,7 @@ func genLimitCase(rng *rand.Rand, idx int) LimitCase {
 }
 
 func phaseLimits(r *mon.Run) {
-	n := r.Pick(36, 320)
+	n := r.Pick(90, 700)
 	for i := 0; i < n; i++ {
 		c := genLimitCase(r.RNG(0xA000+uint64(i)), i)
 		if i < 2 {
@@ -502,4 +502,73 @@ func startNoise(node *limitlab.Node, w *limitlab.World) (stop func()) {
 		}
 	}()
 	return func() { close(quit); wg.Wait() }
+}
+
+// StallCase is the dedicated scenario for the interplay of the per-peer limit
+// with the multiplexer's strictly ordered frame delivery: one peer opens L+2
+// streams and the RPC ids reach the syncer before the request bodies (the order
+// concurrent Peer.callRPC goroutines of an honest client can produce, because
+// id and body are separate writes). The subnet budget is disabled, so every
+// request has to be answered.
+type StallCase struct {
+	Phase        string `json:"phase"`
+	Index        int    `json:"index"`
+	PerPeer      int    `json:"maxInflightRPCs"`
+	Streams      int    `json:"streams"`
+	RPCTimeoutMs int    `json:"rpcTimeoutMs"`
+}
+
+func phaseStall(r *mon.Run) {
+	n := r.Pick(1, 3)
+	for i := 0; i < n; i++ {
+		c := StallCase{Phase: "stall", Index: i, PerPeer: 1 + i, Streams: 3 + i, RPCTimeoutMs: 1500}
+		r.Sample(c)
+		runStallCase(r, c)
+	}
+}
+
+func runStallCase(r *mon.Run, c StallCase) {
+	r.Eval()
+	w := limitlab.NewWorld(uint64(r.Seed)<<16 ^ uint64(c.Index) ^ 0xAA<<40)
+	node, err := w.NewNode(limitlab.NodeConfig{IP: victimIP(230 + c.Index), Opts: []syncer.Option{
+		syncer.WithSyncInterval(time.Hour), syncer.WithPeerDiscoveryInterval(time.Hour),
+		syncer.WithMaxInflightRPCs(c.PerPeer), syncer.WithMaxInflightRPCsPerSubnet(0),
+		syncer.WithRPCTimeout(time.Duration(c.RPCTimeoutMs) * time.Millisecond),
+	}})
+	if err != nil {
+		r.Inconclusive("stall: cannot build node: " + err.Error())
+		return
+	}
+	node.CM.SetLimits(c.PerPeer, 0)
+	node.CM.RegisterPeer(1, limitlab.SubnetKey("127.18.3.3", 32))
+	node.Start()
+	defer closeNode(r, "limit", node, c)
+	a, err := w.DialAttacker(1, node.Addr, "127.18.3.3", 46000, nil)
+	if err != nil {
+		r.Inconclusive("stall: attacker could not connect: " + err.Error())
+		return
+	}
+	defer a.Close()
+	a.Serve()
+	if err := a.Ping(settleBound); err != nil {
+		r.Inconclusive("stall: ping failed: " + err.Error())
+		return
+	}
+	res := a.OrderedBurst(1, c.Streams, 120*time.Second)
+	var lost []limitlab.ReqResult
+	for _, rr := range res {
+		if !rr.OK {
+			lost = append(lost, rr)
+		}
+	}
+	r.Count("stall.requests_sent", len(res))
+	r.Count("stall.requests_answered", len(res)-len(lost))
+	r.Distinct(fmt.Sprintf("stall/L%d/streams%d", c.PerPeer, c.Streams))
+	if o := node.CM.Observed(); len(o.Excess) > 0 {
+		r.Violation("per-peer-limit-exceeded", "limit exceeded in the stall scenario", c, o.Excess)
+		return
+	}
+	if len(lost) > 0 {
+		r.Violation("backpressure-stall-drops-request", fmt.Sprintf("%d of %d requests of one peer (MaxInflightRPCs=%d, subnet limit disabled) were dropped after the RPC timeout: the handlers holding the slots waited for request bodies that were queued, inside the multiplexer, behind the id frame of a stream the peer loop could not accept while it was waiting for a slot", len(lost), len(res), c.PerPeer), c, lost)
+	}
 }
